@@ -36,7 +36,7 @@ func runC03(c *engine.Ctx, tier string) {
 	getFilterBoundary(c, "C03.2")
 	mapOrder(c, "C03.3", []string{pkgCtlUtils, pkgProposalCtl, pkgTxCtlV3, pkgStoreCfgV2, pkgStoreCfgV3, pkgTreeV2, pkgTreeV3})
 	tombstones(c)
-	persistTable(c, "C03.5a", pkgStoreCfgV2)
+	persistTableSync(c, "C03.5a", pkgStoreCfgV2)
 	persistTable(c, "C03.5b", pkgStoreCfgV3)
 	removalsPersisted(c)
 	ancestorSearch(c)
@@ -1262,4 +1262,175 @@ func queryNormalised(c *engine.Ctx) {
 			o.Fail(&engine.Violation{Key: w.Func + "|query not trimmed", Pos: w.Pos, Func: w.Func, Msg: "the query text " + w.RHS + " is stored without strings.TrimSuffix(…, \"/\")"})
 		}
 	}
+}
+
+// persistTableSync: the persist table of a store() that makes the primitive EQUAL to the pruned values it is
+// given (v2 since the repair of F25): the snapshot of the primitive is every entry of its List stream, keyed by
+// the entry's key; (stored, not among the pruned values) → Remove IfVersion; (among the pruned values, not
+// stored) → Insert; (both, Index or Deleted differs) → Update IfVersion; (both, same) → nothing; one Commit.
+func persistTableSync(c *engine.Ctx, id, rel string) {
+	o := c.Custom(id, "K-enum(persist table)", "store(): pruned := PrunePathMap(values, true) by path; snapshot := every entry of List by key; (stored, not pruned) → Remove; (pruned, not stored) → Insert; (both, Index or Deleted differs) → Update; (both, same) → nothing; one Commit after the loops",
+		"what is persisted is exactly the pruned value set — a tombstone that was lifted leaves the primitive, too; a repeated merge is idempotent")
+	defer o.Done(1)
+	paths, err := c.A.PathsOpt(rel, engine.PathOpts{Roots: []string{".configurationStore.store"}, NoInline: true})
+	if err != nil {
+		o.Undecided(rel, err.Error())
+		return
+	}
+	seen := map[string]bool{}
+	fail := func(p *engine.Path, pos token.Pos, key, msg string) {
+		o.Fail(&engine.Violation{Key: rel + ".store|" + key, Pos: c.P.Pos(pos), Func: p.Root.Name(), Msg: msg})
+	}
+	// the two maps (their allocation names are the same on every path)
+	allocBase := func(lhs string) string {
+		k := strings.Index(lhs, ")@")
+		if k < 0 {
+			return ""
+		}
+		j := k + 2
+		for j < len(lhs) && lhs[j] >= '0' && lhs[j] <= '9' {
+			j++
+		}
+		return lhs[:j]
+	}
+	pruned, snapshot := "", ""
+	for _, p := range paths {
+		valuesP := "$values"
+		if fd := p.Root.Decl; fd != nil && fd.Type.Params != nil {
+			if l := fd.Type.Params.List; len(l) > 0 && len(l[len(l)-1].Names) > 0 {
+				valuesP = "$" + l[len(l)-1].Names[len(l[len(l)-1].Names)-1].Name
+			}
+		}
+		for i := range p.Events {
+			e := &p.Events[i]
+			if e.Kind != engine.EvWrite {
+				continue
+			}
+			base := allocBase(e.LHS)
+			if base == "" {
+				continue
+			}
+			switch {
+			case strings.HasPrefix(base, "make(map[string]*config/") && strings.Contains(e.RHS, "tree.PrunePathMap("+valuesP+",true)") && strings.HasPrefix(e.RHS, "elem(") && e.LHS == base+"["+e.RHS+".Path]":
+				pruned = base
+			case strings.HasPrefix(base, "make(map[string]*map.Entry[") && strings.HasPrefix(e.RHS, "§") && e.LHS == base+"["+e.RHS+".Key]":
+				for j := 0; j < i; j++ {
+					if x := &p.Events[j]; x.Kind == engine.EvCall && strings.HasSuffix(x.CalleeName, "EntryStream.Next") && x.Canon == e.RHS {
+						snapshot = base
+					}
+				}
+			}
+		}
+	}
+	if pruned == "" || snapshot == "" {
+		o.Undecided(rel+".store|maps", "anchor not found: store() does not build the pruned values by path from PrunePathMap(values, true) and a snapshot of every List entry by key")
+		return
+	}
+	for _, p := range paths {
+		for i := range p.Events {
+			le := &p.Events[i]
+			if le.Kind != engine.EvLoopEnter {
+				continue
+			}
+			overSnapshot := snapshot != "" && strings.HasPrefix(le.Range, snapshot)
+			overPruned := pruned != "" && strings.HasPrefix(le.Range, pruned)
+			if !overSnapshot && !overPruned {
+				continue
+			}
+			other := pruned
+			if overPruned {
+				other = snapshot
+			}
+			exit := -1
+			var has, hasNot, idxDiff, idxSame, delDiff, delSame bool
+			effect, effKey, effVer := "", "", ""
+			for j := i + 1; j < len(p.Events); j++ {
+				ej := &p.Events[j]
+				if ej.Kind == engine.EvLoopExit && ej.Node == le.Node {
+					exit = j
+					break
+				}
+				if ej.Kind == engine.EvCall && strings.HasPrefix(ej.CalleeName, "map.Transaction.") {
+					effect += ej.CalleeName[strings.LastIndex(ej.CalleeName, ".")+1:]
+					if len(ej.Args) > 0 {
+						effKey = ej.Args[0]
+					}
+					if len(ej.Args) > 0 {
+						effVer = ej.Args[len(ej.Args)-1]
+					}
+				}
+				if ej.Kind != engine.EvCond {
+					continue
+				}
+				l := ej.Lit
+				switch {
+				case strings.HasPrefix(l.L, "has("+other+"[key("+le.Range+")]") || strings.HasPrefix(l.L, "ok("+other+"[key("+le.Range+")]"):
+					has = has || l.Mask == 2
+					hasNot = hasNot || l.Mask == 5
+				case strings.Contains(l.L, ".Index") && strings.Contains(l.R, ".Index"):
+					idxDiff = idxDiff || l.Mask == 5
+					idxSame = idxSame || l.Mask == 2
+				case strings.Contains(l.L, ".Deleted") && strings.Contains(l.R, ".Deleted"):
+					delDiff = delDiff || l.Mask == 5
+					delSame = delSame || l.Mask == 2
+				}
+			}
+			if exit < 0 || exit == i+1 {
+				continue
+			}
+			o.Eval(1)
+			want := "?"
+			switch {
+			case overSnapshot && hasNot:
+				want = "Remove"
+			case overSnapshot && has:
+				want = ""
+			case overPruned && hasNot:
+				want = "Insert"
+			case overPruned && has && (idxDiff || delDiff):
+				want = "Update"
+			case overPruned && has && idxSame && delSame:
+				want = ""
+			}
+			cell := want
+			if want == "" {
+				cell = "nothing"
+				if overSnapshot {
+					cell = "keep"
+				}
+			}
+			seen[cell] = true
+			if want == "?" || effect != want {
+				fail(p, le.Pos, "decision table", fmt.Sprintf("persisting decision: in the loop over %s, for (in the other map=%v/%v, index differs=%v same=%v, tombstone flag differs=%v same=%v) the effect is '%s' where '%s' is required",
+					map[bool]string{true: "the stored entries", false: "the pruned values"}[overSnapshot], has, hasNot, idxDiff, idxSame, delDiff, delSame, effect, want))
+				return
+			}
+			if effect != "" && effKey != "key("+le.Range+")" {
+				fail(p, le.Pos, "effect key", "the "+effect+" is not made under the iteration's own key: "+effKey)
+				return
+			}
+			if (effect == "Remove" || effect == "Update") && !strings.Contains(effVer, "map.IfVersion(") {
+				fail(p, le.Pos, "unconditional "+effect, "the "+effect+" of a stored entry is not conditional on the version of the snapshot")
+				return
+			}
+			// one commit after the loops
+			commits := 0
+			for j := exit; j < len(p.Events); j++ {
+				if ej := &p.Events[j]; ej.Kind == engine.EvCall && strings.HasSuffix(ej.CalleeName, "map.Transaction.Commit") {
+					commits++
+				}
+			}
+			last := &p.Events[len(p.Events)-1]
+			if commits != 1 && last.Kind == engine.EvReturn {
+				fail(p, le.Pos, "commit", "the map transaction is not committed exactly once after the loops")
+				return
+			}
+		}
+	}
+	for _, cell := range []string{"Remove", "keep", "Insert", "Update", "nothing"} {
+		if !seen[cell] {
+			o.Undecided(rel+".store|cell "+cell, "anchor not found: no path of store() shows the '"+cell+"' cell of the decision table (pruned := PrunePathMap(values, true) by path, snapshot := entries of List by key)")
+		}
+	}
+	o.Site(rel + ".store: all five cells observed")
 }
